@@ -1256,3 +1256,97 @@ func c03r7(rc *core.RC) {
 		rc.Unknown("encoder/End-links", token.NoPos, "found %d assignments to Opcode.End in the encoder package (confirmed: 13)", n)
 	}
 }
+
+// ---- C03.R8 what the encode helpers return ends with the separator their callers cut off ----
+
+// encode, encodeNoEscape and encodeIndent return the text with the separator the interpreter writes behind every
+// value, and every caller cuts one byte off (buf[:len(buf)-1]). The branch for an untyped nil runs no program and
+// writes the text itself: it has to write the separator as well, or the caller cuts the last letter of the literal
+// (MarshalNoEscape(nil) returned `nul` with a nil error). Obligation, in every function of package json that returns
+// ([]byte, error) and has a branch `if v == nil` for its interface parameter: the buffer that branch returns was
+// last extended by one of the separator writers (encoder.AppendComma…).
+func c03r8(rc *core.RC) {
+	p := rc.P
+	jp := p.Pkg("json")
+	if jp == nil {
+		rc.Unknown("json", token.NoPos, "package not found")
+		return
+	}
+	info := jp.TypesInfo
+	n := 0
+	for _, fd := range p.Funcs("json") {
+		if fd.Body == nil {
+			continue
+		}
+		fn, _ := info.Defs[fd.Name].(*types.Func)
+		if fn == nil {
+			continue
+		}
+		sig := fn.Type().(*types.Signature)
+		if sig.Results().Len() != 2 || sig.Results().At(0).Type().String() != "[]byte" || sig.Results().At(1).Type().String() != "error" {
+			continue
+		}
+		name := p.FuncName(fd)
+		for _, st := range fd.Body.List {
+			ifs, ok := st.(*ast.IfStmt)
+			if !ok {
+				continue
+			}
+			be, ok := core.Unparen(ifs.Cond).(*ast.BinaryExpr)
+			if !ok || be.Op != token.EQL || !core.IsNilIdent(info, be.Y) {
+				continue
+			}
+			v, ok := core.ObjOf(info, be.X).(*types.Var)
+			if !ok {
+				continue
+			}
+			if it, isI := v.Type().Underlying().(*types.Interface); !isI || it.NumMethods() != 0 {
+				continue
+			}
+			// the branch writes the literal itself
+			writesNull := false
+			ast.Inspect(ifs.Body, func(m ast.Node) bool {
+				if c, ok := m.(*ast.CallExpr); ok && core.CalleeName(info, c) == "encoder.AppendNull" {
+					writesNull = true
+				}
+				return true
+			})
+			if !writesNull {
+				continue
+			}
+			n++
+			rc.Touch(name)
+			key := name + "/nil-branch ends-with-the-separator"
+			// the last extension of the returned buffer
+			var last *ast.CallExpr
+			var ret *ast.ReturnStmt
+			for _, s2 := range ifs.Body.List {
+				switch x := s2.(type) {
+				case *ast.AssignStmt:
+					if len(x.Rhs) == 1 {
+						if c, ok := core.Unparen(x.Rhs[0]).(*ast.CallExpr); ok {
+							last = c
+						}
+					}
+				case *ast.ReturnStmt:
+					ret = x
+				}
+			}
+			if ret != nil && len(ret.Results) == 2 {
+				if c, ok := core.Unparen(ret.Results[0]).(*ast.CallExpr); ok {
+					last = c
+				}
+			}
+			sep := last != nil && strings.HasPrefix(core.CalleeName(info, last), "encoder.AppendComma")
+			rc.Check(sep, key, ifs.Pos(), "the branch for an untyped nil returns the literal without the separator behind it (the last writer is %s): every caller cuts one byte off what this function returns, so the text loses its last letter (`nul`)", func() string {
+				if last == nil {
+					return "none"
+				}
+				return core.CalleeName(info, last)
+			}())
+		}
+	}
+	if n < 3 {
+		rc.Unknown("json/nil-branches", token.NoPos, "found %d encode helpers with a branch for an untyped nil (confirmed: 3)", n)
+	}
+}
